@@ -463,3 +463,16 @@ def call_sequence(items, reuse_objects=None):
         finally:
             os.chdir(old)
     return out
+
+
+def bif_call(fid, kwargs_list):
+    """Calls a built-in function of the registry directly on a list of keyword-argument dicts."""
+    from morph_kgc.fnml.built_in_functions import bif_dict
+    out = []
+    f = bif_dict[fid]['function']
+    for kw in kwargs_list:
+        try:
+            out.append({'v': f(**kw)})
+        except Exception as e:
+            out.append(_bucket(e))
+    return out
